@@ -362,3 +362,15 @@ where
         res.data.rotate_right(k_lo);
     }
 }
+
+/// Verification hooks (feature `verif-hooks`): read access to the table limbs and the drift.
+#[cfg(feature = "verif-hooks")]
+impl LookupTable {
+    pub fn verif_data(&self) -> &[VecZnx<Vec<u8>>] {
+        &self.data
+    }
+
+    pub fn verif_drift(&self) -> usize {
+        self.drift
+    }
+}
